@@ -28,7 +28,9 @@ RULE = (
     "Incremental::dst_is_stale answers `not stale` only by the comparison `mtime(path.src) > generated`, on paths where "
     "build_info.generated_files.get(path.dst) is Some and path.dst.exists() is true (a lost info.toml record or a missing output is "
     "stale), and in Incremental::open every path that leaves a file out of the miss set has entry.is_some_and(hash equal) true and, "
-    "unless consider_output is false or the file is an example, dst_is_stale false."
+    "unless consider_output is false or the file is an example, dst_is_stale false. R7 build outputs (emitted files, source maps, "
+    "bundle, filelist) are written only through utils::write_output_if_changed, whose only file-changing callee is "
+    "veryl_path::atomic_write (R3): a crash leaves the old file or none, never a truncated one."
 )
 
 CRATES = ["veryl_cache", "veryl_path", "veryl"]
@@ -290,6 +292,29 @@ def run(world, tier, info, only=None):
         pv = tr.prov(t["args"][0])
         ck.ob("R4", "miss.insert-receiver", any(x[0] == "arg" and any(q[0] == "f" and q[1] == "miss" for q in x[2]) for x in pv),
               site(w.fns[trp], t["l"]), "the HashSet::insert on failure paths targets self.miss")
+    # ---------------- R7 build outputs are replaced atomically ---------------------------------------------
+    WO = "veryl::utils::write_output_if_changed"
+    if WO not in w.fns:
+        ck.missing("R7", WO)
+    else:
+        muts = [c for c in w.fns[WO]["calls"] if MUTATORS.search(c["c"] or "")]
+        bad = [c for c in muts if c["c"] != "veryl_path::atomic_write"]
+        ck.ob("R7", "write_output_if_changed/atomic-only", bool(muts) and not bad, site(w.fns[WO]),
+              "write_output_if_changed changes the file only through veryl_path::atomic_write" if muts and not bad else
+              "write_output_if_changed writes through %s: a crash between truncate and write leaves a partial output that the previous "
+              "build's manifest and info.toml still vouch for" % sorted({c["c"] for c in bad}))
+    n_out = 0
+    for p, sm in sorted(w.fns.items()):
+        if not p.startswith("veryl::cmd_build::") or sm.get("alias_of") or "::tests::" in p:
+            continue
+        for c in sm["calls"]:
+            cc = c["c"] or ""
+            if cc == WO:
+                n_out += 1
+            elif MUTATORS.search(cc) and not re.search(r"create_dir(_all)?$|^tempfile::", cc) or cc == "veryl::utils::write_file_if_changed":
+                ck.ob("R7", "outputs-through-atomic-writer:%s/%s" % (p.split("::")[-1], cc.split("::")[-1]), False, site(sm, c["l"]),
+                      "%s writes a build output through %s instead of utils::write_output_if_changed" % (p, cc))
+    ck.floor("R7", "build output writes through write_output_if_changed", n_out, 4)
     # ---------------- R5 commit order (shared with C04 R4) ------------------------------------------------
     c04.commit_order(ck, w, "R5")
     # ---------------- R6 output staleness -------------------------------------------------------------------
